@@ -95,6 +95,7 @@ fn main() {
             std::env::set_var("VERIF_JOBS", "1");
             run_model(vec![(skv_verif::engine_lock::c19(), 1200, 24000)], tier, replay)
         }
+        "C16" => run_model(vec![(skv_verif::engine_corrupt::c16(40), 160, 3200), (skv_verif::engine_corrupt::c16(600), 6, 240)], tier, replay),
         "C18" => run_model(vec![(skv_verif::fmt_bptree::c18(60, false), 4000, 60000), (skv_verif::fmt_bptree::c18(300, false), 300, 6000), (skv_verif::fmt_bptree::c18(60, true), 400, 6000)], tier, replay),
         "C01" => run_model(vec![(props::c01(), 20000, 400000)], tier, replay),
         "C06" => run_model(vec![(props::c06(), 6000, 120000)], tier, replay),
